@@ -204,6 +204,40 @@ def h_pdu_suffix(ctx, kind, cfg, var, k, factory=False):
     ctx.holds("decoded exactly as the PDU alone: re-packs to the PDU", e2 is None and r2 == raw, exc_name(e2))
 
 
+def h_pdu_raw(ctx, kind, L):
+    """form (b) for the PDU decoders on arbitrary buffers without the CRC flag (accepting a CRC-flagged arbitrary buffer means
+    inverting the CRC; the packed+suffix form covers CRC PDUs)"""
+    cls = CLASSES[kind]
+    data = ctx.octets("data", L)
+    if L >= 1:
+        ctx.assume((items_of(data)[0] & 2) == 0)
+    e, u = call(cls.unpack, data)
+    if e is not None:
+        ctx.reach("rejected")
+        return
+    ctx.reach("accepted")
+    N = u.packet_len
+    ctx.holds("reported length <= buffer length", N <= L, "reported %s of %d" % (N, L))
+    b = items_of(data)
+    ctx.holds("reported length == header length + declared data field length",
+              N == 4 + 2 * (((b[3] >> 4) & 7) + 1) + ((b[3] & 7) + 1) + ((b[1] << 8) | b[2]))
+    if not bool(N <= L):
+        return
+    n = int(N)
+    e2, u2 = call(cls.unpack, data[:n])
+    ctx.holds("decoding only the declared PDU is accepted too", e2 is None, exc_name(e2))
+    if e2 is not None:
+        return
+    ctx.holds("same reported length", u2.packet_len == n)
+    ee, eq = call(lambda: sym_and(u == u2, u2 == u))
+    if ee is None:
+        ctx.holds("result identical to decoding just the declared PDU (==)", eq)
+    e3, r1 = call(u.pack)
+    e4, r2 = call(u2.pack)
+    ctx.holds("result identical to decoding just the declared PDU (both re-pack to the same octets)",
+              (e3 is None) == (e4 is None) and (e3 is not None or r1 == r2), exc_name(e3 or e4))
+
+
 SUFFIX_UNITS = [("sp-header", None), ("cds-short", None), ("request-id", None), ("pdu-header", (1, 1)), ("pdu-header", (2, 4)), ("pdu-header", (8, 8)),
                 ("tlv", 0), ("tlv", 2), ("lv", 0), ("lv", 2), ("entity-id-tlv", 1), ("entity-id-tlv", 4), ("flow-label-tlv", 1), ("msg-to-user-tlv", 2),
                 ("fault-handler-tlv", None), ("fs-request-tlv", ((1,), ())), ("fs-request-tlv", ((1,), (2,))), ("fs-response-tlv", ((1,), (1,))),
@@ -223,6 +257,10 @@ def cases(tier):
     for unit, Ls in RAW_LENGTHS.items():
         for L in (Ls if tier == "thorough" else Ls[:3]):
             cs.append(Case("raw-%s-L%d" % (unit, L), "raw", h_raw, dict(unit=unit, L=L), budget=900, bounds="%s decoder on every octet string of length %d" % (unit, L)))
+    for kind in KINDS:
+        for L in range(7, tier_pick(tier, 13, 17)):
+            cs.append(Case("rawpdu-%s-L%d" % (kind, L), "rawpdu", h_pdu_raw, dict(kind=kind, L=L), budget=1500,
+                           bounds="%s decoder on every octet string of length %d without the CRC flag" % (kind, L)))
     pk = tier_pick(tier, (2, 3, 8), (1, 2, 3, 4, 8, 16))
     cfgs = tier_pick(tier, [(1, 1, 0, 0), (1, 1, 1, 0), (2, 4, 1, 1)], config_matrix("quick"))
     pv = dict(eof=[("nofl", {}), ("fl1", dict(fl=1))], finished=[("r0", dict(nresp=0)), ("r1-fl", dict(nresp=1, fl=1))], ack=[("eof", dict(acked=4))],
